@@ -16,6 +16,8 @@
 //   rd <s|f> <hex> [cut]         read a (prefix of a) file with CdnsReader
 //   answer: I <preamble dump> B{...} B{...} <EOF|E:end|E:dec|E:other>
 #include "common.h"
+#include <thread>
+#include <signal.h>
 #include "records.h"
 #include <fcntl.h>
 #include <unistd.h>
@@ -318,7 +320,20 @@ std::string dump_block(CDNS::CdnsBlockRead& b) {
 std::string read_file(const std::string& kind, const std::string& data) {
     std::unique_ptr<std::istream> in;
     int mfd = -1;
-    if (kind == "f") {
+    int pfd[2] = {-1, -1};
+    std::thread feeder;
+    if (kind == "p") {
+        // a pipe fed by another thread while the reader reads
+        signal(SIGPIPE, SIG_IGN);
+        if (pipe(pfd) != 0) return "I E:harness";
+        int wfd = pfd[1];
+        feeder = std::thread([wfd, &data]() {
+            std::size_t off = 0;
+            while (off < data.size()) { ssize_t w = ::write(wfd, data.data() + off, std::min<std::size_t>(3000, data.size() - off)); if (w <= 0) break; off += w; }
+            close(wfd);
+        });
+        in = std::make_unique<std::ifstream>("/proc/self/fd/" + std::to_string(pfd[0]), std::ifstream::binary);
+    } else if (kind == "f") {
         mfd = memfd_create("rd", 0);
         std::size_t off = 0;
         while (off < data.size()) { ssize_t w = ::write(mfd, data.data() + off, data.size() - off); if (w <= 0) break; off += w; }
@@ -357,6 +372,7 @@ std::string read_file(const std::string& kind, const std::string& data) {
     } catch (CDNS::CdnsDecoderEnd&) { out += " E:end"; }
     catch (CDNS::CdnsDecoderException&) { out += " E:dec"; }
     catch (std::exception&) { out += " E:other"; }
+    if (feeder.joinable()) { in.reset(); close(pfd[0]); feeder.join(); }
     if (mfd >= 0) close(mfd);
     return out;
 }
